@@ -213,10 +213,14 @@ def save_calibrator_state(  # noqa: PLR0913
 
             # Resize the first dimension so there's room for the new data
             new_num_rows = nb_rows + to_append.shape[0]
-            data.resize((new_num_rows,) + previous_shape[1:])
-
-            # Write the appended portion
-            data[nb_rows:new_num_rows] = to_append
+            # and write the appended portion; if that fails the rows just added are given back, otherwise they would stay
+            # in the file as zeros and every later save would append after them
+            try:
+                data.resize((new_num_rows,) + previous_shape[1:])
+                data[nb_rows:new_num_rows] = to_append
+            except BaseException:
+                data.resize(previous_shape)
+                raise
 
         return
 
